@@ -1063,10 +1063,19 @@ def run(ctx):
                 'only in their default values) x every valid call (<= npos+2 positional, keywords from the parameters and x, y; every split '
                 'of an argument set) through pyg getargspec / getcallargs / call_with_callargs / each of 8 decorators (try_list: the caller '
                 'mutates every result it is given, in place); (b) every history of Wrap steps TLC enumerates, replayed on real decorators with all live objects '
-                'projected and called (older objects after newer ones exist; schedules late/eager); (c) every call sequence on cache(f) '
-                'with a counting f.  C2S: random signatures, calls with strange values, longer mixed wrap/call histories, memo sequences '
-                'with unhashable keys, validated by Trace_Decorators.  Non-trivial = a call using keywords/extras/defaults, a history in '
-                'which a wrapper class is applied twice, a call sequence with a repeated key; distinct by abstract case.')
+                'projected and called (older objects after newer ones exist; schedules late/eager); (b\') every chain of <= 2 decorator kinds, also the try '
+                'wrappers with verbose / repeat set, x every way f can fail (11 realisations: with / without message, several arguments, raised by the '
+                'interpreter, a subclass, StopIteration, format characters, KeyboardInterrupt / SystemExit / GeneratorExit) x every place the failing value '
+                'can be passed, plus calls with mutable arguments; each call made twice with the same argument objects, which are compared with their '
+                'snapshot; (c) every call sequence on cache(f) with a counting f; (d) every history of getcallargs / call_with_callargs on f and on W(f) / '
+                'the caller editing its binding in place (the same binding replayed again, on the other object, after an edit; the same call bound again '
+                'after the first binding was edited), with ALL the caller\'s bindings compared after every step; (e) every history of one ready-made '
+                'decorator OBJECT of each of the 15 kinds applied to two functions made from one code object and to its own results, the decorated functions '
+                'called in any order (outcome, evaluations of BOTH functions, projection and argspec of every object).  C2S: random signatures, calls with '
+                'strange values and every failure realisation, longer mixed wrap/call histories, memo sequences with unhashable keys, binding sessions, '
+                'sessions of 1-3 ready-made decorator objects over three functions, validated by Trace_Decorators.  Non-trivial = a call using '
+                'keywords/extras/defaults, a history in which a wrapper class is applied twice, a call sequence with a repeated key, a failure other than '
+                'ValueError("bad"), a binding used by more than one step, a decorator object applied to two functions and called twice; distinct by abstract case.')
     import time
     rep = Reporter(ctx)
     t0 = time.time(); phases = ctx.extra.setdefault('phase_seconds', {})
@@ -1130,6 +1139,12 @@ def run(ctx):
         'a keyword named axis (a parameter of loops) or self is never passed; loops = loop(list, dict) and the first argument is never a list/dict; no pandas input',
         'try_none and try_zero are one class with a parameter: wrapping with one over the other keeps the newer (MergeSameClass, documented behaviour)',
         'try_back without a first argument: outcome unspecified (NoFirstArgument); unhashable cache keys may be re-evaluated (Uncached); wrappers built from a cached function may share its memo (SharedMemo)',
+        'optional parameters: verbose True/False and repeat 1-2 of try_value are covered (the law ignores them); return_value=False (switches the wrapper off) and sleep are not; '
+        'KeyboardInterrupt / SystemExit / GeneratorExit raised by f are not failures of f: every wrapper lets them through (InterruptsPassThrough)',
+        'call_with_callargs is judged on bindings that getcallargs returned and on what the four edits (another first argument, a failing first argument, one more *args '
+        'entry, one more **kw entry) make of them - each again the binding of a valid call; hand-written partial bindings are outside the statement',
+        'ready-made decorator objects: the second function is the twin with the other default values (same calls valid, other results); evaluation counts of a decorated '
+        'function are pinned only for cache(f) itself while no other cached wrapper of f exists (SharedMemo); no function but the one called may be evaluated at all',
         'evaluation counts are pinned only for cached functions; memo keys avoid values that Python itself treats as equal (1, 1.0, True)',
         'small scope: histories of <= 4 (quick; 5th step only in MC thorough) Wrap steps over 7 kinds, call menus of <= 27 calls on 3-5 base signatures']
 
